@@ -1,0 +1,58 @@
+//go:build verif
+
+// Contracts for types.go (C18: nsqadmin's cluster view equals the sum of its parts), checked by nsqvc.
+// Comment-only file.
+
+package clusterinfo
+
+// Go's += on int64/int wraps; "the sum over nodes" is stated for sums that fit the counter type.
+//@ pred fits64(x int) := -9223372036854775808 <= x && x <= 9223372036854775807
+//@ pred sum64(new int, x int, y int) := fits64(x + y) ==> new == x + y
+
+// ChannelStats.Add: every aggregated number is the sum, Paused is the disjunction, the node and its
+// clients are appended (nothing dropped), identity fields are kept.
+//@ func (c *ChannelStats) Add(a *ChannelStats)
+//@   props C18
+//@   ghostparam gcs []*ChannelStats
+//@   inst Sort.gms c.E2eProcessingLatency.Percentiles
+//@   requires c != nil && a != nil
+//   (an absent latency object in `a` is tolerated: nothing is merged then)
+//@   requires[own-latency-entries] c.E2eProcessingLatency != nil ==> entriesOK(c.E2eProcessingLatency)
+//@   ensures[node] c.Node == "*"
+//@   ensures[depth] sum64(c.Depth, old(c.Depth), old(a.Depth))
+//@   ensures[memory-depth] sum64(c.MemoryDepth, old(c.MemoryDepth), old(a.MemoryDepth))
+//@   ensures[backend-depth] sum64(c.BackendDepth, old(c.BackendDepth), old(a.BackendDepth))
+//@   ensures[in-flight] sum64(c.InFlightCount, old(c.InFlightCount), old(a.InFlightCount))
+//@   ensures[deferred] sum64(c.DeferredCount, old(c.DeferredCount), old(a.DeferredCount))
+//@   ensures[requeue] sum64(c.RequeueCount, old(c.RequeueCount), old(a.RequeueCount))
+//@   ensures[timeout] sum64(c.TimeoutCount, old(c.TimeoutCount), old(a.TimeoutCount))
+//@   ensures[message-count] sum64(c.MessageCount, old(c.MessageCount), old(a.MessageCount))
+//@   ensures[delivery] sum64(c.DeliveryMsgCount, old(c.DeliveryMsgCount), old(a.DeliveryMsgCount))
+//@   ensures[zone-local] sum64(c.ZoneLocalMsgCount, old(c.ZoneLocalMsgCount), old(a.ZoneLocalMsgCount))
+//@   ensures[region-local] sum64(c.RegionLocalMsgCount, old(c.RegionLocalMsgCount), old(a.RegionLocalMsgCount))
+//@   ensures[global] sum64(c.GlobalMsgCount, old(c.GlobalMsgCount), old(a.GlobalMsgCount))
+//@   ensures[client-count] sum64(c.ClientCount, old(c.ClientCount), old(a.ClientCount))
+//@   ensures[paused] c.Paused == (old(c.Paused) || old(a.Paused))
+//@   ensures[nodes] len(c.NodeStats) == old(len(c.NodeStats)) + 1
+//@   ensures[clients] len(c.Clients) == old(len(c.Clients)) + old(len(a.Clients))
+//@   ensures[latency] c.E2eProcessingLatency != nil && entriesOK(c.E2eProcessingLatency)
+//@   ensures[latency-kept] old(c.E2eProcessingLatency) != nil ==> c.E2eProcessingLatency == old(c.E2eProcessingLatency)
+//@   ensures[other-channel-slices] base(gcs) != old(base(c.NodeStats)) ==> forall k int :: {gcs[k]} 0 <= k && k < len(gcs) ==> gcs[k] == old(gcs[k])
+//@   modifies c.Node, c.Depth, c.MemoryDepth, c.BackendDepth, c.InFlightCount, c.DeferredCount, c.RequeueCount, c.TimeoutCount,
+//@        c.MessageCount, c.DeliveryMsgCount, c.ZoneLocalMsgCount, c.RegionLocalMsgCount, c.GlobalMsgCount, c.ClientCount,
+//@        c.Paused, c.NodeStats, c.Clients, c.E2eProcessingLatency,
+//@        c.E2eProcessingLatency.Addr, c.E2eProcessingLatency.Count, c.E2eProcessingLatency.Percentiles,
+//@        elems(map[string]float64), mapstore(map[string]float64),
+//@        elems(*ChannelStats), elems(*ClientStats), elems(*TopicStats), elems(*Producer), elems(ProducerTopic)
+
+// Decoding a producer document never crashes, whatever the document holds (json.Unmarshal is modelled
+// as leaving arbitrary values in `r`: the two sibling arrays may have different lengths).
+// On success there is one ProducerTopic per topic name.
+//@ func (p *Producer) UnmarshalJSON(b []byte) error
+//@   props C18
+//@   requires p != nil
+//@   loop 0
+//@     invariant[topics] len(p.Topics) == rangeindex + 1
+
+// accOK: what ChannelStats.Add needs of an accumulator.
+//@ pred accOK(c *ChannelStats) := c != nil && (c.E2eProcessingLatency != nil ==> entriesOK(c.E2eProcessingLatency))
